@@ -161,6 +161,7 @@ func vxSymStr(name string, maxLen int) string {
 
 func vxSymDir(name string, maxLen int, dotu bool) *Dir {
 	d := new(Dir)
+	d.Size = vxU16(name + ".size") // whatever an earlier decode left there: the encoder computes the size itself
 	d.Type = vxU16(name + ".type")
 	d.Dev = vxU32(name + ".dev")
 	d.Qid = vxSymQid(name + ".qid")
